@@ -162,27 +162,15 @@ func scanOutRead(c *core.Ctx) []ob {
 			})
 		}
 		guardedByIdentity := func(nd ast.Node) bool {
-			var child ast.Node = nd
-			for p := pm[child]; p != nil; child, p = p, pm[p] {
-				is, ok := p.(*ast.IfStmt)
-				if !ok || is.Body != child {
-					continue
-				}
-				found := false
-				ast.Inspect(is.Cond, func(x ast.Node) bool {
-					if be, ok := x.(*ast.BinaryExpr); ok && be.Op == token.EQL {
-						for _, side := range []ast.Expr{be.X, be.Y} {
-							for _, r := range rootsOf(info, side, aliases, 0) {
-								if outs[r.obj] {
-									found = true
-								}
+			for _, h := range holdsAt(pm, nd) {
+				for _, be := range equalitiesOf(h.cond, h.pos) {
+					for _, side := range []ast.Expr{be.X, be.Y} {
+						for _, r := range rootsOf(info, side, aliases, 0) {
+							if outs[r.obj] {
+								return true
 							}
 						}
 					}
-					return true
-				})
-				if found {
-					return true
 				}
 			}
 			return false
